@@ -809,6 +809,50 @@ def _root_local(b, l, depth=0):
     return l
 
 
+def _closure_of(b, op):
+    """def path of the closure passed as operand `op` (non-capturing: a ZST constant; capturing: an aggregate)"""
+    if op.get("k") == "const" and op.get("fn"):
+        return op["fn"]
+    if op.get("k") in ("copy", "move") and not op["pl"]["p"]:
+        d = _single_def(b, op["pl"]["l"])
+        if d is not None and d.get("k") == "agg" and d.get("ak") == "closure":
+            return d.get("fn")
+    return None
+
+
+def _zero_filtered_collect(b, root, depth=0):
+    """the string `root` is collected from an iterator chain that passes `filter(|c| c != '0')`"""
+    if depth > 8 or root is None:
+        return False
+    d = _single_def(b, root)
+    if d is None or d.get("k") != "call":
+        return False
+    t = d["t"]
+    cp = callee_path(t) or ""
+    if cp.endswith("Iterator>::filter") or cp.endswith("Iterator::filter"):
+        cl = _closure_of(b, t["args"][1]) if len(t["args"]) > 1 else None
+        cb = b.unit.body(cl) if cl else None
+        if cb is not None:
+            has_zero = any(o.get("k") == "const" and o.get("char") == "0" for blk in cb.blocks for st in blk["s"] if st["k"] == "assign"
+                           for o in _rv_operands(st["rv"])) or any(
+                a.get("k") == "const" and a.get("char") == "0" for _, tt in cb.calls() for a in tt["args"])
+            # promoted `&'0'`
+            has_zero = has_zero or any(c.get("char") == "0" for c in (cb.j.get("promoted_consts") or []))
+            ne = any(st["k"] == "assign" and st["rv"].get("k") == "binop" and st["rv"].get("op") == "Ne" for blk in cb.blocks for st in blk["s"]) or any(
+                (callee_path(tt) or "").endswith("::ne") for _, tt in cb.calls())
+            if has_zero and ne:
+                return True
+    if t["args"] and t["args"][0].get("k") in ("copy", "move") and not t["args"][0]["pl"]["p"] and (
+            "Iterator" in cp or cp.endswith("::collect") or cp.endswith("::iter") or cp.endswith("::chars")):
+        return _zero_filtered_collect(b, t["args"][0]["pl"]["l"], depth + 1)
+    return False
+
+
+def _rv_operands(rv):
+    from facts import iter_operands_rv
+    return list(iter_operands_rv(rv))
+
+
 def flw6(ctx):
     r = RuleResult("FLW-6", "tone values are capped at four non-zero digits where they originate; other tone writes copy a tone or go through concat_tone", floor=16)
     lib = ctx.lib
@@ -859,6 +903,8 @@ def flw6(ctx):
                             aa = tt["args"]
                             if len(aa) == 3 and (const_of(b, aa[1]) or {}).get("char") == "0" and (const_of(b, aa[2]) or {}).get("str") == "":
                                 zero_strip = True
+                if not zero_strip and _zero_filtered_collect(b, root):
+                    zero_strip = True
                 if zero_strip:
                     ok = True
                 else:
@@ -1059,3 +1105,100 @@ def _is_none(rv):
         pr = rv["op"].get("pretty") or ""
         return "None" in pr or (rv["op"].get("ty", "").startswith("core::option::Option<") and rv["op"].get("variant") == "None")
     return False
+
+
+# ---------------------------------------------------------------- FLW-8 binding reset discipline
+
+SUBRULE = "asca::subrule::SubRule"
+BINDING_CELLS = ("alphas", "variables")
+
+
+def _cell_of_guard(b, l, depth=0):
+    """field of `self` whose RefCell the local `l` (a guard, a reference derived from it, or the &RefCell) belongs to"""
+    if depth > 8 or l is None:
+        return None
+    d = _single_def(b, l)
+    if d is None:
+        return None
+    if d.get("k") == "ref":
+        for pr in d["pl"]["p"]:
+            if isinstance(pr, dict) and pr.get("of") == SUBRULE and pr.get("n"):
+                return pr["n"]
+        return _cell_of_guard(b, d["pl"]["l"], depth + 1)
+    if d.get("k") == "use" and d["op"].get("k") in ("copy", "move"):
+        return _cell_of_guard(b, d["op"]["pl"]["l"], depth + 1)
+    if d.get("k") == "call" and d["t"]["args"] and d["t"]["args"][0].get("k") in ("copy", "move"):
+        return _cell_of_guard(b, d["t"]["args"][0]["pl"]["l"], depth + 1)
+    return None
+
+
+def clear_blocks(unit, b, depth=0):
+    """cell name -> blocks of `b` whose terminator empties that binding table: HashMap::clear on the cell, or a call of a
+    SubRule method that clears it on every path"""
+    out = {c: set() for c in BINDING_CELLS}
+    for bi, t in b.calls():
+        cp = callee_path(t) or ""
+        if cp.endswith("HashMap::clear") and t["args"] and t["args"][0].get("k") in ("copy", "move"):
+            c = _cell_of_guard(b, t["args"][0]["pl"]["l"])
+            if c in out:
+                out[c].add(bi)
+        elif cp.startswith(SUBRULE + "::") and depth < 2:
+            cb = unit.body(cp)
+            if cb is not None and cb is not b:
+                inner = clear_blocks(unit, cb, depth + 1)
+                cfg = cb.cfg
+                for c in BINDING_CELLS:
+                    if inner[c] and cfg.must_pass_through(0, inner[c], cfg.exits):
+                        out[c].add(bi)
+    return out
+
+
+def flw8(ctx):
+    r = RuleResult("FLW-8", "alpha / variable bindings are emptied before every match attempt and at every restart of a partial input match", floor=6)
+    lib = ctx.lib
+    # (a) SubRule::apply: each input_match_at call is dominated, inside the scan loop, by clears of both tables
+    ap = ctx.fn(lib, SUBRULE + "::apply")
+    cfg = ap.cfg
+    cl = clear_blocks(lib, ap)
+    calls = [bi for bi, t in ap.calls() if (callee_path(t) or "") == SUBRULE + "::input_match_at"]
+    if not calls:
+        raise AnchorMissing("SubRule::apply no longer calls input_match_at")
+    for bi in calls:
+        loops = cfg.loops_containing(bi)
+        if not loops:
+            raise AnchorMissing("SubRule::apply: input_match_at is not called from a loop")
+        h, body = min(loops, key=lambda x: len(x[1]))
+        for c in BINDING_CELLS:
+            doms = [x for x in cl[c] if x in body and cfg.dominates(x, bi)]
+            nxt = ap.blocks[bi]["t"].get("t")
+            # or: emptied on every path from the attempt back to the loop head (tables are empty when a SubRule is built; PUR-4 keeps SubRules per word)
+            tail = bool(cl[c] & body) and nxt is not None and cfg.must_pass_through(nxt, cl[c] & body, {h})
+            ok = bool(doms) or tail
+            r.inst("apply: `%s` is cleared on every path from the loop head to input_match_at" % c, short_loc(ap.blocks[bi]["t"]["loc"]), "ok" if ok else "report")
+            if not ok:
+                r.report("FLW-8|apply|%s" % c, short_loc(ap.blocks[bi]["t"]["loc"]), ap.path,
+                         "a match attempt starts without emptying `%s`: bindings of the previous attempt (or of the previous word) are compared against instead of being bound afresh" % c)
+    # (b) input_match_at: every restart (`state_index = 0` inside the loop) empties both tables in the same iteration
+    im = ctx.fn(lib, SUBRULE + "::input_match_at")
+    cfg = im.cfg
+    cl = clear_blocks(lib, im)
+    restarts = []
+    for bi, blk in enumerate(im.blocks):
+        for s in blk["s"]:
+            if s["k"] == "assign" and not s["lhs"]["p"] and im.local_name(s["lhs"]["l"]) == "state_index" and s["rv"].get("k") == "use" \
+                    and s["rv"]["op"].get("k") == "const" and s["rv"]["op"].get("int") == 0 and cfg.loops_containing(bi):
+                restarts.append((bi, s))
+    if not restarts:
+        raise AnchorMissing("input_match_at: no `state_index = 0` restart inside the scan loop")
+    restarts.sort(key=lambda x: int(x[1]["loc"].split(":")[1]))
+    for k, (bi, s) in enumerate(restarts):
+        h, body = min(cfg.loops_containing(bi), key=lambda x: len(x[1]))
+        for c in BINDING_CELLS:
+            before = [x for x in cl[c] if x in body and x != h and cfg.dominates(x, bi) and not cfg.dominates(x, h)]
+            after = cl[c] and cfg.must_pass_through(bi, cl[c] & body, {h} | set(cfg.exits)) and bi not in cl[c]
+            ok = bool(before) or bool(after)
+            r.inst("input_match_at: restart #%d empties `%s` in the same iteration" % (k, c), short_loc(s["loc"]), "ok" if ok else "report")
+            if not ok:
+                r.report("FLW-8|input_match_at|restart#%d|%s" % (k, c), short_loc(s["loc"]), im.path,
+                         "the partial input match is abandoned and matching restarts, but `%s` keeps the bindings of the abandoned attempt: an alpha or variable is then compared with a stale value" % c)
+    return r
